@@ -3,6 +3,8 @@ package keeper
 import (
 	"cosmossdk.io/math"
 	sdk "github.com/cosmos/cosmos-sdk/types"
+
+	"github.com/sunriselayer/sunrise/x/liquiditypool/types"
 )
 
 func (k Keeper) AllocateIncentive(ctx sdk.Context, poolId uint64, sender sdk.AccAddress, incentiveCoins sdk.Coins) error {
@@ -18,6 +20,11 @@ func (k Keeper) AllocateIncentive(ctx sdk.Context, poolId uint64, sender sdk.Acc
 	liquidity, err := math.LegacyNewDecFromStr(pool.CurrentTickLiquidity)
 	if err != nil {
 		return err
+	}
+	// positions exist but none is in range: there is nobody to accrue the incentive to
+	// (QuoDecTruncate panics on a zero divisor, and this runs in BeginBlock)
+	if !liquidity.IsPositive() {
+		return types.ErrEmptyLiquidity
 	}
 	feeGrowth := sdk.NewDecCoinsFromCoins(incentiveCoins...).QuoDecTruncate(liquidity)
 	err = k.AddToAccumulator(ctx, feeAccumulator, feeGrowth)
